@@ -51,7 +51,7 @@ def run(c):
     elif c.thorough:
         harness(c, ov, 150000, 40000, race=True)
     else:
-        harness(c, ov, 3000, 1200)
+        harness(c, ov, 5000, 1200)
 
     def search():
         c.seed += 1000
